@@ -639,6 +639,9 @@ func GetHandleID(netName, containerID, workload string) string {
 }
 
 func CreateClient(conf types.NetConf) (client.Interface, error) {
+	if c, ok := verifClientOverride(conf); ok {
+		return c, nil
+	}
 	if err := ValidateNetworkName(conf.Name); err != nil {
 		return nil, err
 	}
